@@ -223,6 +223,7 @@ LOOP_T = [
     BASE.from_string("{% for i in a limit: l offset: o %}{{ i }}{% else %}E{% endfor %}|{% for i in a offset: continue %}{{ i }}{% endfor %}"),
     BASE.from_string("{% for i in a reversed limit: l %}{{ i }}{% endfor %}|{% for i in a offset: continue limit: 1 %}{{ i }}{% endfor %}|{% for i in a offset: continue %}{{ i }}{% endfor %}"),
     BASE.from_string("{% for i in a offset: o reversed %}{{ forloop.index }}{{ forloop.index0 }}{{ forloop.rindex }}{{ forloop.rindex0 }}{{ forloop.first }}{{ forloop.last }}{{ forloop.length }},{% endfor %}"),
+    BASE.from_string("{% for row in rows %}[{% for x in row limit: 2 offset: continue %}{{ x }}{% else %}none{% endfor %}]{% endfor %}|{% for j in (1..l) %}<{% for k in (1..j) limit: 1 offset: continue %}{{ k }}{% else %}e{% endfor %}>{% endfor %}"),
     BASE.from_string("{% for i in a %}{% for j in a limit: l %}{{ forloop.parentloop.index }}{{ forloop.index }}{% if j == o %}{% break %}{% endif %}{% endfor %};{% if i == l %}{% continue %}{% endif %}{{ i }}{% endfor %}"),
 ]
 LOOP_P = [
@@ -232,6 +233,9 @@ LOOP_P = [
      ("for", "i", ("var", "a", []), ("lit", 1), "continue", False, [("out", ("var", "i", []))], None), ("text", "|"),
      ("for", "i", ("var", "a", []), None, "continue", False, [("out", ("var", "i", []))], None)],
     [("for", "i", ("var", "a", []), None, ("var", "o", []), True, [("out", ("var", "forloop", [k])) for k in ("index", "index0", "rindex", "rindex0", "first", "last", "length")] + [("text", ",")], None)],
+    [("for", "row", ("var", "rows", []), None, None, False, [("text", "["), ("for", "x", ("var", "row", []), ("lit", 2), "continue", False, [("out", ("var", "x", []))], [("text", "none")]), ("text", "]")], None),
+     ("text", "|"),
+     ("for", "j", ("range", ("lit", 1), ("var", "l", [])), None, None, False, [("text", "<"), ("for", "k", ("range", ("lit", 1), ("var", "j", [])), ("lit", 1), "continue", False, [("out", ("var", "k", []))], [("text", "e")]), ("text", ">")], None)],
     [("for", "i", ("var", "a", []), None, None, False, [
         ("for", "j", ("var", "a", []), ("var", "l", []), None, False, [("out", ("var", "forloop", ["parentloop", "index"])), ("out", ("var", "forloop", ["index"])),
                                                                  ("if", ("cmp", "==", ("var", "j", []), ("var", "o", [])), [("break",)], [], None)], None),
@@ -242,13 +246,14 @@ LOOP_P = [
 @cond(
     pre=["len(a) <= 3", "all(0 <= k <= 3 for k in a)", "-2 <= l <= 4", "-2 <= o <= 4"],
     timeout=240,
-    shard={"i": [0, 1, 2, 3]},
-    covers="for loops: limit/offset (negative, zero, beyond the end), offset: continue after a limited loop, reversed, else, every forloop helper variable at every position, parentloop, break/continue at data-dependent positions - equal to the reference",
-    bounds="list len <= 3 of ints 0..3; limit, offset in -2..4 (islice realizes ints); 4 programs",
-    grid=lambda: [(i, a, l, o) for i in range(4) for a in ([], [1], [3, 1, 2]) for l in (-1, 0, 1, 4) for o in (-1, 0, 2, 4)],
+    shard={"i": [0, 1, 2, 3, 4]},
+    covers="for loops: limit/offset (negative, zero, beyond the end), offset: continue after a limited loop and when the same loop resumes over a shorter or longer sequence, reversed, else, every forloop helper variable at every position, parentloop, break/continue at data-dependent positions - equal to the reference",
+    bounds="list len <= 3 of ints 0..3; limit, offset in -2..4 (islice realizes ints); 5 programs",
+    grid=lambda: [(i, a, l, o) for i in range(5) for a in ([], [1], [3, 1, 2]) for l in (-1, 0, 1, 4) for o in (-1, 0, 2, 4)],
 )
 def k_loops(i: int, a: List[int], l: int, o: int) -> bool:
-    data = {"a": a, "l": l, "o": o}
+    # rows: the same loop (same variable and iterable text) runs over sequences of different length
+    data = {"a": a, "l": l, "o": o, "rows": [a, [7], a[:1], a + a]}
     try:
         got = ("ok", LOOP_T[i].render(**data))
     except LiquidError:
